@@ -1267,8 +1267,10 @@ impl<'i> Machine<'i> {
                 Expr::Primary(p) => {
                     self.write_primary(p, &mut |slot, _| round(slot, *dir))?;
                 }
-                // rrss walks the expression writing to every identifier before it fails
-                _ => return Err(Stop::Unspecified("rounding of a compound expression")),
+                // An operator expression is not something that can be rounded in place: a runtime error whatever its
+                // operands are (rrss applies the rounding to every identifier inside before it fails, which nothing
+                // can observe because the program stops there).
+                _ => return err("value not writable"),
             },
             Stmt::Continue => {
                 self.trace.continues += 1;
